@@ -312,12 +312,12 @@ def walk_stmts(stmts):
             yield from walk_stmts(s.then)
             if s.els is not None:
                 yield from walk_stmts(s.els)
-        elif s.kind in ("while", "for"):
+        elif s.kind in ("while", "for", "dowhile"):
             yield from walk_stmts(s.body)
 
 
 def stmt_exprs(s):
-    if s.kind in ("if", "while", "for"):
+    if s.kind in ("if", "while", "for", "dowhile"):
         return [s.c]
     if s.kind in ("decl", "assign", "return", "sink"):
         return [s.e]
@@ -401,6 +401,17 @@ def corpus_funcs():
         fs.append(Func("k%d" % i, P3, body))
     # 16eb134: constant on the left of a bit-mask comparison
     fs.append(Func("k4", P3, [S("if", c=bin_(">", num(8), bin_("&", var("a"), num(3))), then=[S("return", e=num(1))], els=None), S("return", e=num(0))]))
+    # seeded change on followVariableExpression: alias of a variable that is modified later in a loop body (back edge)
+    for i, kind in enumerate(["dowhile", "while", "for"]):
+        inner = [S("if", c=bin_("==", var("al"), num(0)), then=[S("if", c=bin_("!=", var("a"), num(0)), then=[S("assign", name="r", op="+=", e=num(1))], els=None)], els=None),
+                 S("incdec", name="a", op="++")]
+        pre = [S("decl", type="int", name="al", e=var("a")), S("decl", type="int", name="r", e=num(0))]
+        if kind == "for":
+            loop = [S("for", var="i", lo=0, c=bin_("<", var("i"), num(3)), body=inner)]
+        else:
+            pre.append(S("decl", type="int", name="i", e=num(0)))
+            loop = [S(kind, c=bin_("<", var("i"), num(3)), body=inner + [S("incdec", name="i", op="++")])]
+        fs.append(Func("k%d" % (6 + i), P3, pre + loop + [S("return", e=var("r"))]))
     fs.append(Func("k5", P3, [S("if", c=bin_("<", num(2), bin_("&", var("a"), num(1))), then=[S("return", e=num(1))], els=None), S("return", e=num(0))]))
     return fs
 
@@ -409,7 +420,10 @@ def run_programs(run, nfuncs, work, name):
     import random
     # the program family is FIXED (independent of VERIF_SEED; quick = a prefix of thorough): value flow is unsound on a small
     # fraction of random programs through many inference paths, every failing member of the family is triaged and listed
-    gen = c03_gen.Gen(random.Random("C03-x2-family-%s" % name))
+    if name.startswith("alias"):
+        gen = c03_gen.AliasGen(random.Random("C03-x2-family-%s" % name))     # second family, added later: own constant seeds
+    else:
+        gen = c03_gen.Gen(random.Random("C03-x2-family-%s" % name))
     funcs = [gen.function("f%d" % i) for i in range(nfuncs)]
     return judge(funcs, work, name, count=lambda bucket, nt: run.count("programs", None, nontrivial=nt, bucket=bucket))
 
@@ -423,7 +437,7 @@ def variants(fn):
                 lists(s.then, acc)
                 if s.els is not None:
                     lists(s.els, acc)
-            elif s.kind in ("while", "for"):
+            elif s.kind in ("while", "for", "dowhile"):
                 lists(s.body, acc)
         return acc
     nlists = len(lists(fn.body, []))
@@ -442,7 +456,7 @@ def variants(fn):
                     L[i:i + 1] = s.then
                 elif mode == "else" and s.kind == "if" and s.els is not None:
                     L[i:i + 1] = s.els
-                elif mode == "body" and s.kind == "while":
+                elif mode == "body" and s.kind in ("while", "dowhile"):
                     L[i:i + 1] = s.body
                 else:
                     continue
@@ -582,8 +596,12 @@ def check(run, replay):
         tot = {}
         family = json.load(open(os.path.join(os.path.dirname(os.path.abspath(__file__)), "c03_family.json")))
         shrinks = [4 if quick else 30]
-        for rd in range(-1, rounds):
-            if rd < 0:
+        arounds = 2 if quick else 10
+        aper = 40 if quick else 100
+        for rd in range(-1, rounds + arounds):
+            if rd >= rounds:
+                stats, bad, unmapped, findings = run_programs(run, aper, work, "alias%d" % (rd - rounds))
+            elif rd < 0:
                 stats, bad, unmapped, findings = judge(corpus_funcs(), work, "corpus",
                                                        count=lambda bucket, nt: run.count("programs", None, nontrivial=nt, bucket="corpus:" + bucket))
             else:
@@ -592,7 +610,7 @@ def check(run, replay):
                 tot[k] = tot.get(k, 0) + v
             for f in unmapped[:2]:
                 run.notes.append("unmapped: " + f.show())
-            rname = "corpus" if rd < 0 else "prog%d" % rd
+            rname = "corpus" if rd < 0 else ("prog%d" % rd if rd < rounds else "alias%d" % (rd - rounds))
             for f, fn, inp, what, expr in bad:
                 if f.inconclusive:
                     tot["inconclusive_contradicted"] = tot.get("inconclusive_contradicted", 0) + 1
